@@ -133,7 +133,7 @@ NP_NAMES = {"abs", "absolute", "maximum", "minimum", "divide", "zeros_like", "on
             "less_equal", "int32", "int64", "float64", "bool_", "pi", "nan", "copy", "array",
             "max", "min", "newaxis", "cumsum", "nan_to_num", "full_like", "logical_and",
             "logical_or", "logical_not", "iterable", "shape", "square", "inf", "ndarray", "bool",
-            "sign", "unique", "mean", "repeat"}
+            "sign", "unique", "mean", "repeat", "nanmax", "nanmin"}
 
 
 class Evaluator:
